@@ -15,9 +15,10 @@ Q_RepSeqs == {<<>>, <<1>>, <<2>>, <<1, 1>>}
 Q_SigAlphabet == {Sig(1, "m1", "ok"), Sig(1, "m1", "mal"), Sig(2, "m1", "ok"), Sig(3, "m1", "ok"), Sig(1, "m2", "ok")}
 Q_SignerSets == {{}, {"ALPHA"}}
 
-T_Batches == {<<1, 1>>, <<1, 2>>, <<2, 2>>, <<3, 1>>, <<2, 0>>, <<1, 3>>}
-T_RepSeqs == {<<>>, <<1>>, <<2>>, <<3>>, <<1, 1>>, <<2, 1>>, <<1, 2>>}
-T_SigAlphabet == Q_SigAlphabet \cup {Sig(1, "m1", "junk"), Sig(2, "m1", "mal"), Sig(4, "m1", "ok")}
+\* second exhaustive configuration: one vector, up to three signatures, REP up to 3, four keys
+T_Batches == {<<1, 2>>, <<3, 1>>, <<2, 0>>, <<1, 3>>, <<4, 1>>}
+T_RepSeqs == {<<>>, <<1>>, <<2>>, <<3>>}
+T_SigAlphabet == Q_SigAlphabet \cup {Sig(1, "m1", "junk"), Sig(2, "m1", "mal")}
 T_SignerSets == {{}, {"ALPHA"}, {"CMT"}}
 
 \* ---- long rosters: the two-byte counter crosses 127 / 255 / 256 (no signatures) ----
@@ -38,7 +39,7 @@ OneS(X) == IF RandomElement(1..3) = 1 THEN One(X) ELSE {{"ALPHA"}}
 Pick(s) == s[RandomElement(1..Len(s))]
 \* a random signature for vector i (zero-based) of container c, biased towards members and well-formed signatures
 RandSig(c, i) ==
-  LET mem == NodesOf(c, i)
+  LET mem == IF RandomElement(1..5) = 1 THEN NodesOf(c, RandomElement(Vecs)) ELSE NodesOf(c, i)   \* sometimes another vector's members
       kk  == IF mem # <<>> /\ RandomElement(1..6) > 1 THEN mem[RandomElement(1..Len(mem))] ELSE RandomElement(1..K)
   IN  [k |-> kk, m |-> Pick(<<"m1", "m1", "m1", "m1", "m1", "m2">>), f |-> Pick(<<"ok", "ok", "ok", "ok", "mal", "mal", "junk">>)]
 RECURSIVE RandVec(_, _, _)
